@@ -94,6 +94,29 @@ def run(chk):
         if r != w:
             chk.violate({"kind": "property", "case": lib.show_case(("rall", [c[1][0][:300] + b"...<%d bytes>" % len(c[1][0])])), "impl": r[:600], "expected": w[:600],
                          "explanation": "a well-formed deb822 document with physical lines of 4096 bytes and more was not read back as its paragraphs, fields and logical lines"})
+    # 1c. the source: how the bytes are chunked by the reader underneath must not matter (one byte per Read, short reads,
+    # data together with EOF, 7-byte chunks, a caller-made 16-byte bufio.Reader), nor where a 4096-byte buffer fill
+    # happens to end (CRLF documents of 2-3 buffer fills whose line ends sweep over every offset)
+    stexts = list(texts[::max(1, len(texts) // chk.n(250, 2500))])
+    for pad in range(0, 34):
+        body = b"".join(b"Field-%03d: value %03d\r\n" % (k, k) + (b" continued %03d\r\n" % k if k % 3 == 0 else b"") + (b"\r\n" if k % 7 == 6 else b"")
+                        for k in range(330))
+        stexts.append(b"Pad: " + b"x" * pad + b"\r\n" + body)
+    sref = chk.run_impl([("rall", [t]) for t in stexts])
+    for variant in (b"onebyte", b"half", b"dataerr", b"chunk7", b"bufio16"):
+        sc = [("rsrc", [variant, t]) for t in stexts]
+        si = chk.run_impl(sc)
+        chk.record("source-" + variant.decode(), sc, si)
+        for c, r, w in zip(sc, si, sref):
+            if r != w:
+                chk.violate({"kind": "property", "case": lib.show_case(("rsrc", [variant, c[1][1][:300] + (b"...<%d bytes>" % len(c[1][1]) if len(c[1][1]) > 300 else b"")])),
+                             "impl": r[:600], "plain_reader": w[:600],
+                             "explanation": "the same document read through a source that delivers its bytes in other chunks (%s) gives other paragraphs" % variant.decode()})
+    # the padded CRLF documents themselves: 330 fields in 48 paragraphs, whatever the padding
+    for t, r in zip(stexts[-34:], sref[-34:]):
+        if not r.startswith("ok [ ") or r.count("( [") != 48:
+            chk.violate({"kind": "property", "case": lib.show_case(("rall", [t[:200] + b"...<%d bytes>" % len(t)])), "impl": r[:300],
+                         "explanation": "a CRLF document of several buffer fills was not read as its 48 paragraphs"})
     # 2. mutations: orphan continuation, duplicate field, stray CR, whitespace-only lines, missing colon ...
     mut = []
     for t in rng.sample(texts, min(len(texts), chk.n(600, 6000))):
